@@ -25,7 +25,9 @@ def dedup (l : List String) : List String := l.eraseDups
 def sample (vars : List String) (vals : List Int) (s : Nat) : List (String × Int) × Nat :=
   vars.foldl (fun (acc : List (String × Int) × Nat) x =>
     let s' := xorshift acc.2
-    (acc.1 ++ [(x, vals.getD (s' % vals.length) 0)], s')) ([], s)
+    -- which clause of a `select` / type switch fires is a small index; boolean-like inputs are mostly 0 / 1
+    let v : Int := if x == "select#0" || x == "typeswitch#0" then ((s' % 5 : Nat) : Int) else vals.getD (s' % vals.length) 0
+    (acc.1 ++ [(x, v)], s')) ([], s)
 
 def envOf (a : List (String × Int)) : Env := fun x => ((a.find? (·.1 == x)).map (·.2)).getD 0
 
